@@ -70,7 +70,8 @@ def load_api(only_auth=False):
         try:
             priv = C.PrivateKey.from_bytes(seed)
             M.gen_keys = lambda: (priv, priv.public_key())
-            name = os.path.join(d, "k")
+            # the pair's name may itself look like one of the two file names
+            name = os.path.join(d, ("k", "k.pub", "key.pri", "a.b.pub.pri")[seed[0] % 4])
             # the key files may already exist (longer, other content): writing must replace them
             for ext in (".pri", ".pub"):
                 with open(name + ext, "wb") as f:
@@ -126,6 +127,23 @@ def load_api(only_auth=False):
         finally:
             shutil.rmtree(d, ignore_errors=True)
     api["gpg_sign_file"] = gpg_sign_file
+
+    def gpg_sign_edit_sign(signable, fpr, new_signed):
+        """sign through the file API, replace the signed portion in the file, sign again with the same OpenPGP key"""
+        RS = _rs()
+        d = tempfile.mkdtemp(prefix="cctw")
+        try:
+            fn = os.path.join(d, "root.json")
+            C.write_metadata_to_file(signable, fn)
+            RS.sign_root_metadata_via_gpg(fn, fpr)
+            cur = C.load_metadata_from_file(fn)
+            cur["signed"] = new_signed
+            C.write_metadata_to_file(cur, fn)
+            RS.sign_root_metadata_via_gpg(fn, fpr)
+            return json.loads(open(fn, "rb").read())
+        finally:
+            shutil.rmtree(d, ignore_errors=True)
+    api["gpg_sign_edit_sign"] = gpg_sign_edit_sign
     api["gpg_sign_via"] = lambda data, fpr, inc: _rs().sign_via_gpg(data, fpr, inc)
 
     def persist_history(init, ops):
@@ -176,6 +194,9 @@ def load_api(only_auth=False):
                 acc.append(v)
                 for x in v:
                     containers(x, acc)
+            elif isinstance(v, tuple):          # immutable itself, but may hold mutable containers
+                for x in v:
+                    containers(x, acc)
             return acc
 
         def poke(c):
@@ -188,10 +209,17 @@ def load_api(only_auth=False):
             else:
                 c.append("__poked__")
                 c[0] = None
+
+        def same_object(a, b):
+            """some mutable container reachable from a IS one reachable from b"""
+            ids = {id(c) for c in containers(a, [])}
+            return any(id(c) in ids for c in containers(b, []))
         bad = []
         e = S.wrap_as_signable(obj)
-        if e["signed"] is obj:
+        if e["signed"] is obj and isinstance(obj, (dict, list)):
             bad.append("the envelope holds the very same object")
+        if same_object(e, obj):
+            bad.append("the envelope shares a mutable container with the original payload")
         snap = W.enc(e)
         for c in containers(obj, []):
             poke(c)
@@ -213,8 +241,12 @@ def load_api(only_auth=False):
         d = tempfile.mkdtemp(prefix="cctw")
         try:
             fn = os.path.join(d, "repodata.json")
+            # the input file may be laid out more generously than the canonical output (wide indent, trailing blank lines),
+            # so the signed document can be SHORTER than the file it replaces
+            txt = json.dumps(r)
+            lay = len(txt) % 3
             with open(fn, "w") as f:
-                json.dump(r, f)
+                f.write(txt if lay == 0 else json.dumps(r, indent=8) + "\n" * 40 if lay == 1 else json.dumps(r, indent="\t") + " " * 300)
             S.sign_all_in_repodata(fn, keyhex)
             with open(fn, "rb") as f:
                 raw = f.read()
@@ -248,6 +280,36 @@ def load_api(only_auth=False):
             if d:
                 shutil.rmtree(d, ignore_errors=True)
     api["root_history"] = root_history
+
+    def root_history_cli(t0, offers):
+        """a client driven by the command line: `verify-metadata trusted offer && cp offer trusted`"""
+        import contextlib
+        import conda_content_trust.cli as CLI
+        d = tempfile.mkdtemp(prefix="cctw")
+        try:
+            tf, of = os.path.join(d, "trusted.json"), os.path.join(d, "offer.json")
+            C.write_metadata_to_file(t0, tf)
+            verdicts = []
+            for u in offers:
+                with open(of, "w") as f:
+                    json.dump(u, f)
+                try:
+                    with contextlib.redirect_stdout(io.StringIO()), contextlib.redirect_stderr(io.StringIO()):
+                        rc = CLI.cli(["verify-metadata", tf, of])
+                    rc = 0 if rc is None else rc        # sys.exit(None) is exit status 0
+                except SystemExit as e:
+                    rc = 0 if e.code is None else e.code
+                except BaseException as e:  # noqa: an uncaught exception ends the process with status 1
+                    if isinstance(e, KeyboardInterrupt):
+                        raise
+                    rc = 1
+                verdicts.append(rc == 0)
+                if rc == 0:
+                    shutil.copyfile(of, tf)
+            return [verdicts, C.canonserialize(C.load_metadata_from_file(tf))]
+        finally:
+            shutil.rmtree(d, ignore_errors=True)
+    api["root_history_cli"] = root_history_cli
     api["root_history_persist"] = lambda t0, offers: root_history(t0, offers, True)
 
     def pub_of_seed(seed, _):
@@ -326,11 +388,29 @@ def scribble(v, depth=0):
         v.append("__scribbled__")
 
 
+class _FailingStdout:
+    """a standard output on which every write fails (a closed pipe, a full disk): CCT_STDOUT=oserror|closed"""
+    encoding = "utf-8"
+
+    def __init__(self, kind):
+        self.kind = kind
+
+    def write(self, s):
+        if self.kind == "closed":
+            raise ValueError("I/O operation on closed file.")
+        raise BrokenPipeError(32, "Broken pipe")
+
+    def flush(self):
+        pass
+
+
 def main():
     args = sys.argv[1:]
     inp = args[args.index("--in") + 1]
     outp = args[args.index("--out") + 1]
     api, classify = load_api("--only-auth" in args)
+    if os.environ.get("CCT_STDOUT") in ("oserror", "closed"):
+        sys.stdout = _FailingStdout(os.environ["CCT_STDOUT"])
     with open(inp) as fi, open(outp, "w") as fo:
         for line in fi:
             line = line.rstrip("\n")
